@@ -113,6 +113,7 @@ type scen struct {
 	B     *muxdrv.Replica
 
 	fresh, fresh2 *muxdrv.Validator
+	owner         *muxdrv.Validator // a dedicated entity WITHOUT nodes that owns a runtime (rt4)
 	// rt1: compute runtime with a compute node (gets a committee at the first epoch transition),
 	// incoming queue of 2; rt2: runtime without nodes (no committee, suspended after the transition).
 	rt1, rt2 common.Namespace
@@ -137,6 +138,10 @@ const (
 	rtActiveH     = 6
 	rtFillH       = 7
 )
+
+func (s *scen) rt4() common.Namespace {
+	return common.NewTestNamespaceFromSeed([]byte(fmt.Sprintf("verif/%d/rt4", s.seed)), common.NamespaceTest)
+}
 
 func (s *scen) rt3() common.Namespace {
 	return common.NewTestNamespaceFromSeed([]byte(fmt.Sprintf("verif/%d/rt3", s.seed)), common.NamespaceTest)
@@ -195,6 +200,7 @@ func buildScenario(seed uint64, n int) (*scen, error) {
 	cn := *muxdrv.NewValidator(seed, 2)
 	cn.Entity = g.Validators[0].Entity // a second node (compute worker) of validator 0's entity
 	s.cnode = &cn
+	s.owner = muxdrv.NewValidator(seed, 3)
 	s.keys = map[signature.PublicKey]*muxdrv.Key{}
 	reg := func(ks ...*muxdrv.Key) {
 		for _, k := range ks {
@@ -204,7 +210,7 @@ func buildScenario(seed uint64, n int) (*scen, error) {
 	for _, a := range g.Accounts {
 		reg(a.Key)
 	}
-	for _, vv := range append(append([]*muxdrv.Validator{}, g.Validators...), s.fresh, s.fresh2, s.cnode) {
+	for _, vv := range append(append([]*muxdrv.Validator{}, g.Validators...), s.fresh, s.fresh2, s.cnode, s.owner) {
 		reg(vv.Entity, vv.Node)
 	}
 	reg(s.nobody)
@@ -271,6 +277,9 @@ func buildScenario(seed uint64, n int) (*scen, error) {
 			txs = append(txs, sign(acc[6].Key, func(n uint64) *transaction.Transaction {
 				return muxdrv.TxAddEscrow(n, fee(), s.fresh.EntityAddress(), 150)
 			}))
+			txs = append(txs, sign(acc[6].Key, func(n uint64) *transaction.Transaction {
+				return muxdrv.TxAddEscrow(n, fee(), s.owner.EntityAddress(), 900) // entity 100 + compute runtime 600
+			}))
 			for i := 0; i < 8; i++ {
 				ben := muxdrv.NewKey(fmt.Sprintf("verif/%d/ben/%d", seed, i)).Address()
 				txs = append(txs, sign(acc[5].Key, func(n uint64) *transaction.Transaction {
@@ -279,7 +288,7 @@ func buildScenario(seed uint64, n int) (*scen, error) {
 			}
 			// Fund the keys that otherwise own nothing (node keys sign node registrations), so that
 			// they pass authentication also in the histories with a minimum transacting balance.
-			poor := []*muxdrv.Key{s.fresh.Entity, s.fresh.Node, s.fresh2.Entity, s.fresh2.Node, s.cnode.Node}
+			poor := []*muxdrv.Key{s.fresh.Entity, s.fresh.Node, s.fresh2.Entity, s.fresh2.Node, s.cnode.Node, s.owner.Entity}
 			for _, vv := range v {
 				poor = append(poor, vv.Node)
 			}
@@ -321,6 +330,9 @@ func buildScenario(seed uint64, n int) (*scen, error) {
 			txs = append(txs, sign(s.fresh.Entity, func(n uint64) *transaction.Transaction {
 				return muxdrv.TxRegisterEntity(n, muxdrv.Fee(0, muxdrv.DefaultGas), s.fresh.Entity, []signature.PublicKey{s.fresh.Node.Public()})
 			}))
+			txs = append(txs, sign(s.owner.Entity, func(n uint64) *transaction.Transaction {
+				return muxdrv.TxRegisterEntity(n, muxdrv.Fee(0, muxdrv.DefaultGas), s.owner.Entity, nil)
+			}))
 			txs = append(txs, sign(acc[7].Key, func(n uint64) *transaction.Transaction {
 				return muxdrv.TxTransfer(n, fee(), s.vaultAddr, 5000)
 			}))
@@ -335,6 +347,10 @@ func buildScenario(seed uint64, n int) (*scen, error) {
 		case 3:
 			txs = append(txs, sign(v[0].Entity, func(n uint64) *transaction.Transaction {
 				return muxdrv.TxCastVote(n, fee(), 1, governance.VoteYes)
+			}))
+			// the node-less owner entity registers a runtime of its own
+			txs = append(txs, sign(s.owner.Entity, func(n uint64) *transaction.Transaction {
+				return registry.NewRegisterRuntimeTx(n, muxdrv.Fee(0, 4*muxdrv.DefaultGas), s.runtimeDesc(s.rt4(), s.owner.Entity.Public()))
 			}))
 			// vault 1: the admin lets account 8 withdraw up to 10^9 per 1000 blocks (the vault holds 5000)
 			txs = append(txs, sign(acc[7].Key, func(n uint64) *transaction.Transaction {
@@ -1257,6 +1273,13 @@ func (c *gctx) execFailingPick(roundRobin bool) built {
 			return inTx(mk("registry/node-update-consensus-key", vv.Node, func(n uint64, f *transaction.Fee) *transaction.Transaction {
 				return muxdrv.TxRegisterNode(n, f, &alt, muxdrv.NodeDescriptor(&alt, 60, node.RoleValidator))
 			}))
+		},
+		func() built {
+			// an entity with no nodes that still owns a runtime: refused with ErrEntityHasRuntimes
+			// (the LAST check of deregisterEntity before RemoveEntity)
+			return mk("registry/deregister-entity-with-runtimes", s.owner.Entity, func(n uint64, f *transaction.Fee) *transaction.Transaction {
+				return registry.NewDeregisterEntityTx(n, f)
+			})
 		},
 		func() built {
 			return mk("registry/deregister-has-nodes", v[r.Intn(len(v))].Entity, func(n uint64, f *transaction.Fee) *transaction.Transaction {
